@@ -703,6 +703,7 @@ Definition std_sigs (name : bytes) : option fsig :=
   else if beq name "verif_text" then Some (mkSig [] None)
   else if beq name "verif_len" then Some (mkSig [TString] None)
   else if beq name "verif_pick" then Some (mkSig [TInt64] (Some TString))
+  else if beq name "verif_join" then Some (mkSig [TString] (Some TIface))
   else None.
 
 Definition ascii_lower (b : byte) : byte :=
@@ -712,6 +713,31 @@ Definition ascii_upper (b : byte) : byte :=
 
 Definition strs_of (l : list value) : list bytes :=
   map (fun v => match v with VStr s => s | _ => [] end) l.
+
+(* verif_join(sep, parts...): strings and the string elements of arrays, joined; nil skipped *)
+Fixpoint join_parts (l : list value) : option (list bytes) :=
+  match l with
+  | [] => Some []
+  | VNil :: r => join_parts r
+  | VStr s :: r => option_map (cons s) (join_parts r)
+  | VList es :: r =>
+      match (fix strs (es : list value) : option (list bytes) :=
+               match es with
+               | [] => Some []
+               | VStr s :: t => option_map (cons s) (strs t)
+               | _ => None
+               end) es, join_parts r with
+      | Some a, Some b => Some (a ++ b)
+      | _, _ => None
+      end
+  | _ => None
+  end.
+Fixpoint join_with (sep : bytes) (l : list bytes) : bytes :=
+  match l with
+  | [] => []
+  | [s] => s
+  | s :: r => s ++ sep ++ join_with sep r
+  end.
 
 Definition std_call (root : tree) (name : bytes) (p : path) (args : list value) : cfres :=
   if beq name "concat" then CfOk (VStr (concat (strs_of args)))
@@ -738,6 +764,11 @@ Definition std_call (root : tree) (name : bytes) (p : path) (args : list value) 
     match inner_text_at root p with Some s => CfOk (VStr s) | None => CfErr end
   else if beq name "verif_len" then
     match args with [VStr s] => CfOk (VInt (Z.of_nat (length s))) | _ => CfErr end
+  else if beq name "verif_join" then
+    match args with
+    | VStr sep :: rest => match join_parts rest with Some l => CfOk (VStr (join_with sep l)) | None => CfErr end
+    | _ => CfErr
+    end
   else if beq name "verif_pick" then
     match args with
     | VInt i :: rest =>
